@@ -765,50 +765,13 @@ func c15R3R4(p *core.Program, r *core.Report, evalCWV, numCmp, dateCmp, textCmp 
 	// presence guards: where a value of the contact is supplied only under a test, the test looks at the same field
 	// of the contact as the value comes from (the empty-value forms `x = ""` / `x != ""` test absence / presence of x)
 	{
-		recvFields := func(v ssa.Value) map[string]bool {
-			out := map[string]bool{}
-			for w := range core.BackSlice(v, func(*ssa.Call) bool { return true }) {
-				if fa, ok := w.(*ssa.FieldAddr); ok && len(qp.Params) > 0 && fa.X == ssa.Value(qp.Params[0]) {
-					out[core.FieldAddrVar(fa).Name()] = true
-				}
-			}
-			return out
+		nG := c15PresenceGuards(p, r, qp, "QueryProperty", []ssa.Value{keyP, typeP})
+		if qv := p.Method("flows", "FieldValue", "QueryValue"); qv != nil {
+			nG += c15PresenceGuards(p, r, qv, "FieldValue.QueryValue", nil)
+		} else {
+			r.Errorf("FieldValue.QueryValue not found")
 		}
-		nG := 0
-		core.EachInstr(qp, false, func(_ *ssa.Function, in ssa.Instruction) {
-			mi, ok := in.(*ssa.MakeInterface)
-			if !ok || core.ShortType(mi.Type()) != "any" {
-				return
-			}
-			vf := recvFields(mi.X)
-			if len(vf) == 0 {
-				return
-			}
-			for _, ce := range core.ControllingConds(mi.Block()) {
-				bo, ok := ce.Cond.(*ssa.BinOp)
-				if !ok || (bo.Op != token.EQL && bo.Op != token.NEQ) {
-					continue
-				}
-				if bo.X == ssa.Value(keyP) || bo.X == ssa.Value(typeP) || bo.Y == ssa.Value(keyP) || bo.Y == ssa.Value(typeP) {
-					continue
-				}
-				cf := recvFields(bo)
-				if len(cf) == 0 {
-					continue
-				}
-				nG++
-				shared := false
-				for f := range cf {
-					if vf[f] {
-						shared = true
-					}
-				}
-				r.Check(shared, "R3", "QueryProperty/presence-guard/"+strings.Join(core.SortedKeys(vf), "+"), p.Pos(mi.Pos()), "the guard tests "+strings.Join(core.SortedKeys(cf), "+")+", the value comes from "+strings.Join(core.SortedKeys(vf), "+"),
-					fmt.Sprintf("the contact's %s is supplied to the query evaluator depending on a test of its %s: whether `%s = \"\"` / `!= \"\"` holds then depends on another property, and a set value can be withheld while an unset one is supplied as an empty string", strings.Join(core.SortedKeys(vf), "+"), strings.Join(core.SortedKeys(cf), "+"), strings.Join(core.SortedKeys(vf), "+")))
-				break
-			}
-		})
-		r.Require("presence_guards", nG, 3)
+		r.Require("presence_guards", nG, 5)
 	}
 	nP := 0
 	for _, sit := range core.SortedKeys(produced) {
@@ -1103,4 +1066,98 @@ func c15R5(p *core.Program, r *core.Report, evalNode *ssa.Function) {
 		r.Check(dropped == "", "R5", "BoolCombination.Simplify/keeps-every-child", p.Pos(simp.Pos()), "every simplified child is appended (or flattened) in its iteration", "Simplify loses children: "+dropped+" — the simplified query has fewer conditions than the one that was parsed")
 	}
 	r.Check(sameOp, "R5", "BoolCombination.Simplify/flattens-same-operator-only", p.Pos(simp.Pos()), "child.op == parent.op guards the flattening", "Simplify merges a child combination into its parent without comparing their operators: (a OR b) AND c would change meaning")
+}
+
+// c15PresenceGuards: in a method that supplies values of its receiver to the query evaluator, a value supplied only
+// under a test of a receiver field (x != "" / x != nil, the field read directly) comes from that same field.
+func c15PresenceGuards(p *core.Program, r *core.Report, fn *ssa.Function, name string, skip []ssa.Value) int {
+	if len(fn.Params) == 0 {
+		return 0
+	}
+	recv := ssa.Value(fn.Params[0])
+	// the receiver, or a struct embedded in it (FieldValue embeds *Value)
+	isRecv := func(v ssa.Value) bool {
+		if v == recv {
+			return true
+		}
+		if ld, ok := v.(*ssa.UnOp); ok && ld.Op == token.MUL {
+			v = ld.X
+		}
+		if fa, ok := v.(*ssa.FieldAddr); ok && fa.X == recv {
+			if fv := core.FieldAddrVar(fa); fv != nil && fv.Embedded() {
+				return true
+			}
+		}
+		return false
+	}
+	recvFields := func(v ssa.Value) map[string]bool {
+		out := map[string]bool{}
+		for w := range core.BackSlice(v, func(*ssa.Call) bool { return true }) {
+			if fa, ok := w.(*ssa.FieldAddr); ok && isRecv(fa.X) {
+				if fv := core.FieldAddrVar(fa); fv != nil && !fv.Embedded() {
+					out[fv.Name()] = true
+				}
+			}
+		}
+		return out
+	}
+	directField := func(v ssa.Value) string {
+		v = core.StripConv(v)
+		if ld, ok := v.(*ssa.UnOp); ok && ld.Op == token.MUL {
+			if fa, ok := ld.X.(*ssa.FieldAddr); ok && isRecv(fa.X) {
+				return core.FieldAddrVar(fa).Name()
+			}
+		}
+		return ""
+	}
+	nG := 0
+	core.EachInstr(fn, false, func(_ *ssa.Function, in ssa.Instruction) {
+		mi, ok := in.(*ssa.MakeInterface)
+		if !ok || core.ShortType(mi.Type()) != "any" {
+			return
+		}
+		vf := recvFields(mi.X)
+		if len(vf) == 0 {
+			return
+		}
+		for _, ce := range core.ControllingConds(mi.Block()) {
+			bo, ok := ce.Cond.(*ssa.BinOp)
+			if !ok || (bo.Op != token.EQL && bo.Op != token.NEQ) {
+				continue
+			}
+			skipIt := false
+			for _, sk := range skip {
+				if bo.X == sk || bo.Y == sk {
+					skipIt = true
+				}
+			}
+			if skipIt {
+				continue
+			}
+			isSentinel := func(v ssa.Value) bool { // a constant, or a package-level "nil value" variable (i18n.NilLanguage)
+				if _, isConst := v.(*ssa.Const); isConst {
+					return true
+				}
+				if ld, ok := v.(*ssa.UnOp); ok && ld.Op == token.MUL {
+					_, isGlobal := ld.X.(*ssa.Global)
+					return isGlobal
+				}
+				return false
+			}
+			f := ""
+			if isSentinel(bo.Y) {
+				f = directField(bo.X)
+			} else if isSentinel(bo.X) {
+				f = directField(bo.Y)
+			}
+			if f == "" {
+				continue
+			}
+			nG++
+			r.Check(vf[f], "R3", name+"/presence-guard/"+f+"/supplies-"+strings.Join(core.SortedKeys(vf), "+"), p.Pos(mi.Pos()), "the guard tests "+f+", the value comes from "+strings.Join(core.SortedKeys(vf), "+"),
+				fmt.Sprintf("the %s supplied to the query evaluator depends on a test of %s: whether `= \"\"` / `!= \"\"` holds for it then depends on another property, and a set value can be withheld while an unset one is supplied as an empty string", strings.Join(core.SortedKeys(vf), "+"), f))
+			break
+		}
+	})
+	return nG
 }
